@@ -1,5 +1,5 @@
 //! C02: precedence and associativity. Case: `prec <token> <token> …` where a token is an
-//! operand literal, an operator symbol, `(`, `)`, or a prefix `neg` / `not`.
+//! operand literal, an operator symbol, `(`, `)`, a prefix `neg` / `not` or the postfix `tr` (transpose).
 //! Observation: `tree:<s-expr of the real parse tree>#p:<fully parenthesised text>#same:<bool>`
 //! where `same` says whether `interpret(e)` and `interpret(paren(e))` agree bit for bit.
 use crate::common::*;
@@ -10,7 +10,14 @@ use mech_core::nodes::*;
 pub const BINOPS: &[(&str, &str, u8)] = &[
   ("||", "or", 1), ("&&", "and", 1), ("⊕", "xor", 1),
   ("==", "eq", 2), ("!=", "ne", 2), ("<", "lt", 2), ("<=", "le", 2), (">", "gt", 2), (">=", "ge", 2),
-  ("+", "add", 3), ("-", "sub", 3), ("*", "mul", 4), ("/", "div", 4), ("%", "mod", 4), ("^", "pow", 5)];
+  ("+", "add", 3), ("-", "sub", 3), ("*", "mul", 4), ("/", "div", 4), ("%", "mod", 4), ("^", "pow", 5),
+  // table operators (level 6) and set operators (level 7, the tightest binary level)
+  ("⋈", "join", 6), ("⟕", "ljoin", 6), ("⟖", "rjoin", 6), ("⟗", "fjoin", 6), ("⋉", "semi", 6), ("▷", "anti", 6),
+  ("∪", "union", 7), ("∩", "inter", 7), ("∖", "diff", 7), ("Δ", "symdiff", 7), ("⊆", "subset", 7), ("⊇", "superset", 7),
+  ("⊊", "psubset", 7), ("⊋", "psuperset", 7), ("∈", "elem", 7), ("∉", "notelem", 7)];
+
+/// operands of table and set operators are the names of this prelude (evaluated before the formula)
+const PRELUDE: &str = "sa := {1, 2, 3}\nsb := {2, 3}\nsc := {3}\nsd := {1, 4}\nta := |x<u8> y<u8>| 1 2 | 3 4 |\ntb := |x<u8> z<u8>| 1 5 | 7 8 |\ntc := |x<u8> w<u8>| 3 9 | 1 6 |\n";
 
 fn op_name(op: &FormulaOperator) -> String {
   match op {
@@ -20,6 +27,11 @@ fn op_name(op: &FormulaOperator) -> String {
     FormulaOperator::Comparison(c) => match c { ComparisonOp::Equal => "eq", ComparisonOp::NotEqual => "ne", ComparisonOp::LessThan => "lt",
       ComparisonOp::LessThanEqual => "le", ComparisonOp::GreaterThan => "gt", ComparisonOp::GreaterThanEqual => "ge", _ => "cmp?" },
     FormulaOperator::Logic(l) => match l { LogicOp::And => "and", LogicOp::Or => "or", LogicOp::Xor => "xor", LogicOp::Not => "not" },
+    FormulaOperator::Table(t) => match t { TableOp::InnerJoin => "join", TableOp::LeftOuterJoin => "ljoin", TableOp::RightOuterJoin => "rjoin",
+      TableOp::FullOuterJoin => "fjoin", TableOp::LeftSemiJoin => "semi", TableOp::LeftAntiJoin => "anti" },
+    FormulaOperator::Set(x) => match x { SetOp::Union => "union", SetOp::Intersection => "inter", SetOp::Difference => "diff", SetOp::SymmetricDifference => "symdiff",
+      SetOp::Subset => "subset", SetOp::Superset => "superset", SetOp::ProperSubset => "psubset", SetOp::ProperSuperset => "psuperset",
+      SetOp::ElementOf => "elem", SetOp::NotElementOf => "notelem", _ => "set?" },
     _ => "op?",
   }.to_string()
 }
@@ -118,6 +130,7 @@ pub fn source(case: &str) -> String {
     match *t {
       "neg" => s.push('-'),
       "not" => s.push('!'),
+      "tr" => s.push('\''),
       "(" => s.push('('),
       ")" => s.push(')'),
       x => {
@@ -132,6 +145,10 @@ pub fn source(case: &str) -> String {
 
 pub fn exec(case: &str) -> String {
   let src = source(case);
+  // formulas over sets or tables are evaluated after the prelude that defines their operands
+  let high = BINOPS.iter().filter(|b| b.2 >= 6).any(|b| case.split('\t').nth(1).unwrap_or("").split(' ').any(|t| t == b.1));
+  let pre = if high { PRELUDE } else { "" };
+  let src = format!("{}{}", pre, src);
   let tree = match parse_code(&src) { Ok(t) => t, Err(e) => return format!("noparse:{}", e) };
   let f = match find_formula(&tree) { Some(f) => f, None => return "noformula".into() };
   let sx = sexpr(&f);
@@ -140,7 +157,7 @@ pub fn exec(case: &str) -> String {
   let mut lines = vec![]; let mut n = 0;
   let last = stepwise(&f, &mut lines, &mut n);
   lines.push(last);
-  let v2 = eval_obs(&lines.join("\n"));
+  let v2 = eval_obs(&format!("{}{}", pre, lines.join("\n")));
   // errors: compare as "error"; the kind of error may differ with the grouping
   let n = |v: &str| if v.starts_with("err:") { "err".to_string() } else { v.to_string() };
   format!("tree:{}#p:{}#same:{}", sx, ptext, n(&v1) == n(&v2))
@@ -153,7 +170,7 @@ fn operand(rng: &mut Rng, want_bool: bool) -> String {
 pub fn generate(seed: u64, thorough: bool, sink: &mut Sink) -> Vec<String> {
   let mut rng = Rng::new(seed);
   let mut cases = vec![];
-  let names: Vec<&str> = BINOPS.iter().map(|x| x.1).collect();
+  let names: Vec<&str> = BINOPS.iter().filter(|x| x.2 <= 5).map(|x| x.1).collect();
   // exhaustive: every operator sequence of length 1..3 (thorough: 4), numeric operands
   let maxlen = if thorough { 4 } else { 3 };
   let mut seqs: Vec<Vec<usize>> = vec![vec![]];
@@ -199,6 +216,60 @@ pub fn generate(seed: u64, thorough: bool, sink: &mut Sink) -> Vec<String> {
     }
     cases.push(format!("prec\t{}", toks.join(" ")));
     sink.hit("typed-chain");
+  }
+  // nested formulas: parentheses to depth 3, prefix operators on operands and on parenthesised formulas,
+  // transposes of operands and of parenthesised formulas (a transposed scalar is an error when evaluated:
+  // the trees are still compared), `a - -b`
+  fn nested(rng: &mut Rng, depth: u32, toks: &mut Vec<String>, sink: &mut Sink) {
+    let n = 1 + rng.below(3);
+    for i in 0..n {
+      if i > 0 { toks.push((*rng.pick(&["add", "sub", "mul", "div", "mod", "pow", "sub", "pow"])).to_string()); }
+      let neg = rng.chance(1, 5);
+      if neg { toks.push("neg".into()); sink.hit("nested:prefix"); }
+      if depth > 0 && rng.chance(1, 3) {
+        toks.push("(".into()); nested(rng, depth - 1, toks, sink); toks.push(")".into()); sink.hit(&format!("nested:paren-depth{}", 4 - depth));
+      } else { toks.push(operand(rng, false)); }
+      if rng.chance(1, 12) { toks.push("tr".into()); sink.hit("nested:transpose"); }
+    }
+  }
+  for _ in 0..(if thorough { 20000 } else { 1200 }) {
+    let mut toks = vec![];
+    match rng.below(3) {
+      0 => nested(&mut rng, 3, &mut toks, sink),
+      1 => { nested(&mut rng, 2, &mut toks, sink); toks.push((*rng.pick(&["lt", "le", "gt", "ge", "eq", "ne"])).to_string()); nested(&mut rng, 2, &mut toks, sink); }
+      _ => { toks.push("not".into()); toks.push("(".into()); nested(&mut rng, 2, &mut toks, sink); toks.push((*rng.pick(&["lt", "ge", "eq"])).to_string()); nested(&mut rng, 1, &mut toks, sink); toks.push(")".into());
+             toks.push((*rng.pick(&["and", "or", "xor"])).to_string()); toks.push(operand(&mut rng, true)); }
+    }
+    cases.push(format!("prec\t{}", toks.join(" ")));
+    sink.hit("nested");
+  }
+  // the two tightest binary levels: set operators (operands sa … sd, numbers on the left of ∈ ∉) and table
+  // operators (operands ta, tb, tc): every sequence of one and two operators, sequences of three (quick: sampled),
+  // and chains mixed with the looser levels
+  let setops: Vec<&str> = BINOPS.iter().filter(|x| x.2 == 7).map(|x| x.1).collect();
+  let tabops: Vec<&str> = BINOPS.iter().filter(|x| x.2 == 6).map(|x| x.1).collect();
+  let sets = ["sa", "sb", "sc", "sd"]; let tabs = ["ta", "tb", "tc"];
+  for (ops, opnds, tag) in [(&setops, &sets[..], "set"), (&tabops, &tabs[..], "table")] {
+    for a in ops.iter() {
+      cases.push(format!("prec\t{} {} {}", opnds[0], a, opnds[1])); sink.hit(&format!("{}-ops-len1", tag));
+      for b in ops.iter() {
+        cases.push(format!("prec\t{} {} {} {} {}", opnds[0], a, opnds[1], b, opnds[2])); sink.hit(&format!("{}-ops-len2", tag));
+        for c in ops.iter() {
+          if !thorough && !rng.chance(1, 4) { continue; }
+          cases.push(format!("prec\t{} {} {} {} {} {} {}", opnds[0], a, opnds[1], b, opnds[2], c, opnds[(3) % opnds.len()])); sink.hit(&format!("{}-ops-len3", tag));
+        }
+      }
+    }
+  }
+  for _ in 0..(if thorough { 6000 } else { 600 }) {
+    let n = 2 + rng.below(3);
+    let mut toks: Vec<String> = vec![];
+    for i in 0..n {
+      if i > 0 { let pool: &[&str] = match rng.below(5) { 0 | 1 => &setops, 2 => &tabops, 3 => &["add", "mul", "pow", "sub"], _ => &["eq", "lt", "and", "or"] }; toks.push((*rng.pick(pool)).to_string()); }
+      if rng.chance(1, 8) { toks.push("neg".into()); }
+      toks.push(match rng.below(4) { 0 => (*rng.pick(&sets)).to_string(), 1 => (*rng.pick(&tabs)).to_string(), _ => operand(&mut rng, false) });
+    }
+    cases.push(format!("prec\t{}", toks.join(" "))); sink.hit("mixed-with-set-and-table-ops");
   }
   sink.sample(cases[20].clone()); sink.sample(cases[cases.len() - 1].clone());
   cases
